@@ -4753,6 +4753,54 @@ def parse(src: str) -> Program:
         raise ValueError("source is nested too deeply to transpile") from exc
 
 
+# Names a sketch cannot give to its own variables, parameters and helpers: they
+# are C++ keywords (or alternative tokens), or names of the Arduino core that the
+# generated code relies on.  Python accepts them, the C++ compiler would not (or,
+# worse, a helper called ``delay`` would be picked up by the generated code).
+_RESERVED_NAMES = frozenset(
+    """
+    alignas alignof and_eq asm auto bitand bitor bool break case catch char
+    char16_t char32_t class compl const constexpr const_cast continue decltype
+    default delete do double dynamic_cast else enum explicit export extern false
+    float for friend goto if inline int long mutable namespace new noexcept
+    not_eq nullptr operator or_eq private protected public register
+    reinterpret_cast return short signed sizeof static static_assert static_cast
+    struct switch template this thread_local throw true try typedef typeid
+    typename union unsigned using virtual void volatile wchar_t while xor xor_eq
+    setup loop main
+    pinMode digitalWrite digitalRead analogWrite analogRead delay
+    delayMicroseconds millis micros pulseIn tone noTone map random randomSeed
+    Serial String Servo Wire LiquidCrystal LiquidCrystal_I2C HIGH LOW INPUT
+    OUTPUT INPUT_PULLUP LED_BUILTIN A0 A1 A2 A3 A4 A5 A6 A7 byte word boolean
+    PI NULL DEC HEX OCT BIN
+    """.split()
+)
+# Function-like macros of the Arduino core: fine as variable names, but a helper
+# with such a name would be rewritten by the preprocessor.
+_RESERVED_HELPER_NAMES = frozenset(
+    "min max abs round sq constrain radians degrees bit lowByte highByte F".split()
+)
+
+
+def _reject_reserved_names(tree: ast.AST) -> None:
+    for node in ast.walk(tree):
+        if isinstance(node, ast.Name) and not isinstance(node.ctx, ast.Load):
+            name, lineno = node.id, node.lineno
+        elif isinstance(node, ast.FunctionDef):
+            name, lineno = node.name, node.lineno
+        elif isinstance(node, ast.arg):
+            name, lineno = node.arg, node.lineno
+        else:
+            continue
+        if name in _RESERVED_NAMES or (
+            isinstance(node, ast.FunctionDef) and name in _RESERVED_HELPER_NAMES
+        ):
+            raise ValueError(
+                f"line {lineno}: the name {name!r} is reserved in the generated "
+                "C++ sketch; choose another one"
+            )
+
+
 def _parse_program(src: str) -> Program:
     """Implementation of :func:`parse`."""
 
@@ -4765,6 +4813,7 @@ def _parse_program(src: str) -> Program:
         # parse" as a MemoryError; for the caller this is just unusable input.
         raise ValueError("source is too complex to parse") from exc
 
+    _reject_reserved_names(tree)
     lines = src.splitlines()
 
     # The statement parser works line by line.  Imports and docstrings that span
